@@ -1,6 +1,6 @@
 PROPERTY = "C15"
 LEVEL = "proof"
-LEAN_MODULES = ["CifModel.Props.C15", "CifModel.Props.ReviewC15", "CifModel.Props.C15Layout", "CifModel.Props.C15Dup"]
+LEAN_MODULES = ["CifModel.Props.C15", "CifModel.Props.ReviewC15", "CifModel.Props.C15Layout", "CifModel.Props.C15Dup", "CifModel.Props.C15Events"]
 REQUIRED = ["CifModel.C15_skip_depth_balanced", "CifModel.C15_skip_depth_nonneg", "CifModel.C15_skip_depth_cif", "CifModel.C15_stop_is_last", "CifModel.C15_end_ok", "CifModel.C15_positive_aborts", "CifModel.C15_skip_opens_region", "CifModel.C15_skipped_region_silent", "CifModel.C15_syntax_only_same_log", "CifModel.C15_value_mirror", "CifModel.C15_all_continue_mirror", "CifModel.C15_all_continue_mirror_parseCB", "CifModel.C15_stored_is_structural", "CifModel.C15_skip_semantics_rest", "CifModel.C15_unfiltered_is_denote", "CifModel.C15_result_nonneg", "CifModel.C15_positive_aborts_local",
             "CifModel.C15_loop_start_local", "CifModel.C15_cex_loop_start_pinned", "CifModel.C15_loop_start_code_returned",
             "CifModel.C15_stored_is_structural_any", "CifModel.C15_stop_semantics_store", "CifModel.C15_cut_extends_pruned",
@@ -9,7 +9,8 @@ REQUIRED = ["CifModel.C15_skip_depth_balanced", "CifModel.C15_skip_depth_nonneg"
             "CifModel.C15_layout_independent", "CifModel.C15_layout_free", "CifModel.C15_layout_callbacks",
             "CifModel.C15_layout_callbacks_doc", "CifModel.C15_layout_all_continue", "CifModel.C15_layout_all_continue_mirror",
             "CifModel.C15_layout_stop_semantics", "CifModel.C15_layout_rendered",
-            "CifModel.C15_dup_structural_any", "CifModel.C15_dup_header_dropped_column", "CifModel.C15_dup_layout"]
+            "CifModel.C15_dup_structural_any", "CifModel.C15_dup_header_dropped_column", "CifModel.C15_dup_layout",
+            "CifModel.C15_start_only_callbacks", "CifModel.C15_start_only_callbacks_layout"]
 GEN = ["ErrCodes"]
 FAMILIES = ["pcb"]
 TRUSTED_BASE = [
